@@ -389,6 +389,7 @@ def termination_factor(ctx, F, sc):
 
 
 def r5(ctx, F, sfx):
+    accessor_consistency(ctx, F, 'C16.R5', sfx, 'voronoi_cell::VoronoiCell', ['safety_radius'])
     fb = F.body_by_suffix('VoronoiCell::from_convex_cell')
     # the value passed as safety radius to the VoronoiCell constructor is convex_cell.safety_radius
     init_calls = [(bl, t) for bl, t in calls(fb) if strip_generics(callee_name(t)).endswith('VoronoiCell::init')]
